@@ -451,6 +451,8 @@ class Fetcher:
         # Fail all pending fetchone/fetchall calls
         for waiter in self._fetch_waiters:
             self._notify(waiter)
+        # ... including those parked until a rebalance finishes: it never will
+        self._subscriptions.abort_waiters(ConsumerStoppedError())
 
         for x in self._pending_tasks:
             x.cancel()
